@@ -109,7 +109,9 @@ class Site:
         self.ln = ln
         self.detail = detail
         self.terms = terms
-        self.key = "%s | %s | %s | %s | %s" % (fn.crate, root_qname(fn), kind, callee, opterm)
+        # overflow-check sites are keyed by (function, operator) with multiplicity only: keying them by
+        # operand made every edit of an arithmetic expression on an analysed path look like a new site
+        self.key = "%s | %s | %s | %s | %s" % (fn.crate, root_qname(fn), kind, callee, "" if kind == "overflow" else opterm)
 
     def loc(self):
         return self.fn.loc(self.ln)
